@@ -169,8 +169,8 @@ def check(ctx):
                        "U -> acc (native fold closure table; biodivine var_list filter/map tables), i = enumerate index of the tested entry")
         k, seen = semantics.F_restrict_native(ctx, lib, rule, only={"Adf::grounded_internal"})
         ctx.floor(rule, "native grounded restriction sites", k, 1)
-        kb = semantics.bio_list_tables(ctx, lib, rule)
-        ctx.floor(rule, "biodivine list constructions", kb, 4)
+        kb = semantics.bio_list_tables(ctx, lib, rule, which=("var_list",))
+        ctx.floor(rule, "biodivine list constructions", kb, 1)
         semantics.P_progress(ctx, lib, "C01.P-progress")
         F_io(ctx, lib)
         A_hybrid(ctx, lib)
